@@ -1,4 +1,5 @@
 import QuinnModel.Drv.Wire
+import QuinnModel.Drv.Streams
 import QuinnModel.Drv.Dgram
 import QuinnModel.Drv.Mtud
 import QuinnModel.Drv.Cindex
@@ -25,6 +26,7 @@ open QM
 
 structure St where
   dedup : Dedup.Dedup := Dedup.init
+  streams : Streams.State := Streams.State.initial
   dgram : Drv.DgSt := {}
   mtud : Mtud.State := Drv.mtudInit
   cindex : Drv.CState := {}
@@ -71,6 +73,7 @@ def step (s : St) (line : String) : St × String :=
   | "cindex" :: r => let (d, o) := Drv.cindex s.cindex r; ({ s with cindex := d }, o)
   | "dgram" :: r => let (d, o) := Drv.dgram s.dgram r; ({ s with dgram := d }, o)
   | "mtud" :: r => let (d, o) := Drv.mtud s.mtud r; ({ s with mtud := d }, o)
+  | "streams" :: r => let (d, o) := Drv.streams s.streams r; ({ s with streams := d }, o)
   | _ => (s, "bad-op")
 
 partial def loop (h : IO.FS.Stream) (out : IO.FS.Stream) (s : St) : IO Unit := do
